@@ -4,11 +4,15 @@ SPEC = {'level': 'exploration',
                  'announce the genuine wtxid themselves (a stalled request for it would be stalling, not malleation)',
                  'bounded liveness: the genuine tx must be in the mempool within 12 s + 64 s per attacker after the honest announcement (request delays 2 s + 2 s, one '
                  '60 s request expiry per attacker that may hold the same request)',
+                 'excluded by construction (asserted separately by the probe target c64_stripped_orphan, suspected genuine defect): fetching the genuine tx as a missing '
+                 'parent by txid after a witness-stripped copy of it was stored as an orphan',
                  'a failure is re-run under 3 other RNG salts (rolling bloom filters) and only counts if it reproduces in all of them'],
  'stages': [gen('vh_c64', 'c64_malleated', 2400, 36000, min_cases_quick=700,
                 floors={'variant-before-genuine': 0.5, 'variant-as-orphan': 0.1, 'closing-mode-A': 0.3, 'closing-mode-B': 0.15, 'variant-delivered:stripped': 0.08,
                         'block': 0.2, 'genuine-served-on-request': 0.5},
                 rule='announcement/delivery histories of genuine tx and same-txid variants; non-trivial = variant seen before the genuine tx, which is then fetched and accepted'),
+            # deterministic probe of a suspected genuine defect (reported; see corpus/C64/SENSITIVITY.md): never run by the tiers, only via --replay
+            enum('vh_c64', 'c64_stripped_orphan', tiers=(), rule='probe: witness-stripped orphan copy masks the parent fetch (not part of the tiers)'),
             gen('vh_c64', 'up_txdownloadman', 6000, 100000, min_cases_quick=1500, rule='upstream fuzz target txdownloadman (supplementary)'),
             gen('vh_c64', 'up_txdownloadman_impl', 6000, 100000, min_cases_quick=1500, rule='upstream fuzz target txdownloadman_impl (supplementary)')]}
 
